@@ -69,6 +69,10 @@ func run(c *core.Case, id string, gcHeavy bool) {
 		cfg.Controlled = true
 		cfg.MemTableSize = 1 << 20
 		cfg.L0Tables = 1000
+		if rng.Intn(2) == 0 {
+			// hot/cold value-log bucket routing: overwritten keys cross buckets
+			cfg.HotRing, cfg.Buckets = true, 3
+		}
 	}
 	env, err := dbx.NewEnv(cfg, c.TempDir(), c.Count)
 	if err != nil {
